@@ -17,6 +17,8 @@ ASSUME = ['the value -> yabgp dict rendering of harness/wire_map.py (documented 
 FAMILIES = {'C06': ['upd'], 'C08': ['upd', 'updap', 'openrt', 'notif', 'rr', 'ka', 'mp_ipv6', 'mp_lu4', 'mp_lu6', 'mp_vpn4', 'mp_vpn6', 'mp_evpn', 'mp_fs'], 'C09': ['upd', 'updvar', 'updap', 'cor'],
             'C14': ['open', 'openrt', 'notif', 'rr', 'ka'], 'C17': ['comm'],
             'C07': ['mp_ipv6', 'mp_lu4', 'mp_lu6', 'mp_vpn4', 'mp_vpn6', 'mp_evpn', 'mp_fs']}
+# thorough tier: the wide pools (every pair of attribute values, every mandatory x optional value, ...)
+THOROUGH_EXTRA = {'C06': ['updwide'], 'C08': ['updwide'], 'C09': ['updwide', 'updvarwide']}
 CACHE = os.path.join(os.path.dirname(HERE), '.cache')
 
 
@@ -25,10 +27,12 @@ def gen_vectors(family):
     cfg = 'CONSTANTS FAMILY = "%s"\nINIT Init\nNEXT Next\nINVARIANT RefWellFormed\nINVARIANT Emit\nCHECK_DEADLOCK FALSE\n' % family
     key = tlc._sha(cfg, *tlc.spec_deps('WireGen'))
     os.makedirs(CACHE, exist_ok=True)
-    cp = os.path.join(CACHE, 'vec_%s_%s.json' % (family, key))
+    tag = tlc.spec_tag('WireGen')
+    cp = os.path.join(CACHE, 'vec_%s_%s_%s.json' % (family, tag, key))
     if os.path.exists(cp):
         with open(cp) as fh:
             return json.load(fh)
+    tlc.prune('vec_%s' % family, tag)
     st, text = tlc.run('WireGen', cfg, timeout=3000)
     if not st.get('completed') or st.get('violated'):
         raise tlc.TlcError('WireGen(%s): a reference encoding is rejected by the walker, or TLC failed:\n%s' % (family, text[-2500:]))
@@ -63,7 +67,7 @@ def run(prop, tier, seed):
     work = tempfile.mkdtemp(prefix='vcodec_')
     try:
         vecs, gstats = [], {}
-        for fam in FAMILIES[prop]:
+        for fam in FAMILIES[prop] + (THOROUGH_EXTRA.get(prop, []) if tier == 'thorough' else []):
             g = gen_vectors(fam)
             gstats[fam] = g['stats']
             vecs += g['vecs']
